@@ -48,7 +48,8 @@ RwVerdict(ev) ==
 
 SubstAll(ev) ==
   LET S == (Vars(ev.e) \ {ev.v}) \cup Vars(ev.w)          \* v itself is bound to the value of w
-  IN IF ev.mode = "exhaustive1"
+  IN IF ev.out = ev.e /\ ev.v \notin Vars(ev.e) THEN TRUE        \* nothing to substitute: EvalExpr depends on Vars(e) only
+     ELSE IF ev.mode = "exhaustive1"
        THEN ForAllVals1(LAMBDA val : SubstValue(ev.e, ev.v, ev.w, ev.out, val), {x.n : x \in S},
                         BoolNames(ev.w) \cup (BoolNames(ev.e) \ {ev.v.n}))
        ELSE \A i \in 1..Len(ev.vals) : SubstValue(ev.e, ev.v, ev.w, ev.out, ev.vals[i])
